@@ -11,9 +11,9 @@ VERIF = os.path.dirname(os.path.dirname(os.path.abspath(__file__)))
 REPO = os.environ.get("VERIF_REPO", "/repo")
 CRATE = os.path.join(REPO, "rs-matter")
 SRC = os.path.join(CRATE, "src")
-CACHE = os.path.join(VERIF, ".cache")
-EVIDENCE = os.path.join(VERIF, "evidence")
-REPLAYS = os.path.join(VERIF, "replays")
+CACHE = os.environ.get("VERIF_CACHE_DIR", os.path.join(VERIF, ".cache"))
+EVIDENCE = os.environ.get("VERIF_EVIDENCE_DIR", os.path.join(VERIF, "evidence"))
+REPLAYS = os.path.join(os.environ["VERIF_EVIDENCE_DIR"], "replays") if "VERIF_EVIDENCE_DIR" in os.environ else os.path.join(VERIF, "replays")
 KANI_DIR = os.environ.get("VERIF_KANI_DIR", os.path.join(VERIF, "kani"))
 VERUS_DIR = os.path.join(VERIF, "verus")
 
